@@ -541,6 +541,22 @@ func EqInt(x, y *sym.Term) *sym.Term {
 // IntOp builds a bit-level integer operation with light simplification.
 func IntOp(name string, bits int, x, y *sym.Term) *sym.Term {
 	zero := func(t *sym.Term) bool { return t.IsConst() && t.C.Sign() == 0 }
+	// a 0/1 flag combined with a constant: the two possible values
+	if name == "or" || name == "xor" {
+		for _, pr := range [][2]*sym.Term{{x, y}, {y, x}} {
+			b, k := pr[0], pr[1]
+			if b.Sort == sym.Bool && k.Sort != sym.Bool && k.IsConst() && k.C.Sign() != 0 {
+				one := big.NewInt(1)
+				v1 := new(big.Int)
+				if name == "or" {
+					v1.Or(k.C, one)
+				} else {
+					v1.Xor(k.C, one)
+				}
+				return sym.Ite(b, sym.Const(sym.Int, v1), sym.Const(sym.Int, k.C))
+			}
+		}
+	}
 	switch name {
 	case "andnot":
 		// x &^ c  ==  x & ^c
